@@ -186,6 +186,8 @@ inductive Callable
   | named (name : String)              -- an object with a `name` attribute (lookup table, …)
   | method (owner meth : String)       -- bound method of an object whose `name` is `owner`
   | func (name : String)               -- plain function
+  | object (cls : String)              -- callable object without `name` / `__name__` (instance of `cls`,
+                                       -- `functools.partial`, …): named `<cls>.__call__` (F25 repaired)
 deriving Repr, DecidableEq, Inhabited
 
 /-- `Pipeline` as far as dependencies go. `key`: key in `ValuesManager._pipelines`; `named`: the
@@ -268,6 +270,7 @@ def modifierName (s : Sim) : Callable → String
   | .named n => n
   | .method o f => o ++ "." ++ f
   | .func n => n
+  | .object c => c ++ ".__call__"
 
 /-- `ValuesManager.get_value`: creates the pipeline when missing and (since the repair of F17) names it,
 so a `Pipeline` object a component can hold always knows its key -/
